@@ -485,6 +485,28 @@ def network_table(tier="quick"):
     return out
 
 
+def acid_table(part):
+    """Protonated carboxylic acids (input-named ASH / GLH) x chain position x C-O bond-length pairs
+    (equal, slightly and clearly unequal, either oxygen longer) x force field x optimisation on/off:
+    the optimiser treats a carboxyl with C-O lengths differing by > 0.05 A on a branch of its own."""
+    from .props import c06
+    from . import strat as _strat
+
+    out = []
+    k = 0
+    for name in ("ASH", "GLH"):
+        for pos in "NMC":
+            for pair in ([1.35, 1.20], [1.20, 1.35], [1.26, 1.25], [1.31, 1.21], [1.21, 1.31], None):
+                for ff in _strat.FFS:
+                    for opts in ([], ["--noopt"]):
+                        k += 1
+                        ch = c06._context(k % 3, name, pos)
+                        idx = ch["seq"].index(name) if pos != "C" else len(ch["seq"]) - 1
+                        ch["acid"] = [pair if i == idx else None for i in range(len(ch["seq"]))]
+                        out.append(dict(part=part, desc=dict(chains=[ch], waters=[]), ff=ff, opts=list(opts), wild=False))
+    return out
+
+
 def network_cases(part, tier="quick", only=None):
     """Case dicts over the directed network table (force fields and opt switch cycling)."""
     import copy
